@@ -37,7 +37,8 @@ PassCallOk(e) ==
         IF kind = "ok" THEN
            /\ ~HasErr(inner, "eW") /\ ~HasErr(inner, "eO") /\ ~HasZero(inner)
            /\ \A i \in 1..n : AcceptedAt(inner, i)
-        ELSE (kind \in {"eW", "eO"} /\ HasErr(inner, kind)) \/ (kind = "eZ" /\ HasZero(inner)) \/ kind = "eF"
+        ELSE (kind \in {"eW", "eO"} /\ HasErr(inner, kind)) \/ (kind = "eZ" /\ HasZero(inner))
+             \/ (kind = "eF" /\ ~(\E k \in 1..Len(inner) : IsErr(inner[k][3])) /\ ~HasZero(inner))
 
 \* the bytes one call added to the inner writer, in order
 RECURSIVE AcceptedBytes(_, _, _)
